@@ -293,7 +293,7 @@ func mkNumber(tag string, L int) *Number {
 // VerifC13_Denotation).
 func VerifC13_Compare() {
 	zzverif.Expect("lt", "eq", "gt")
-	L := zzverif.Bound("L", 3, 5)
+	L := zzverif.Bound("L", 3, 4)
 	a := mkNumber("a", L)
 	b := mkNumber("b", L)
 	A := zzverif.IntOfDigits(a.nat.Data()).MulPow10(b.exp)
